@@ -111,6 +111,9 @@ pub struct Plan {
     pub ldb_reopens: u8,
     pub ldb_compact: bool,
     pub ldb_history: bool,
+    /// how xor.dat exists: 0 regular file, 1 absolute symlink to a file of another name in a sibling directory,
+    /// 2 relative symlink to a file of another name in the same directory
+    pub xor_link: u8,
 }
 
 pub fn blk_name(number: u64, pad: u8) -> String {
@@ -198,7 +201,19 @@ impl Plan {
             }
         }
         if let Some(k) = &self.xor {
-            std::fs::write(dir.join("xor.dat"), k).map_err(|e| e.to_string())?;
+            match self.xor_link {
+                1 => {
+                    let side = dir.with_file_name(format!("{}-keys", dir.file_name().and_then(|n| n.to_str()).unwrap_or("data")));
+                    std::fs::create_dir_all(&side).map_err(|e| e.to_string())?;
+                    std::fs::write(side.join("blocks.key"), k).map_err(|e| e.to_string())?;
+                    std::os::unix::fs::symlink(side.join("blocks.key"), dir.join("xor.dat")).map_err(|e| e.to_string())?;
+                }
+                2 => {
+                    std::fs::write(dir.join("obfuscation.key"), k).map_err(|e| e.to_string())?;
+                    std::os::unix::fs::symlink("obfuscation.key", dir.join("xor.dat")).map_err(|e| e.to_string())?;
+                }
+                _ => std::fs::write(dir.join("xor.dat"), k).map_err(|e| e.to_string())?,
+            }
         }
         for (n, c) in &self.extra_files {
             std::fs::write(dir.join(n), c).map_err(|e| e.to_string())?;
